@@ -237,10 +237,15 @@ func runC18(r *Rng, n int, replay string) {
 					return nil
 				})
 			}
-			for _, cl := range calls {
+			for ci, cl := range calls {
 				switch cl.kind {
 				case "get":
-					op := txn.GetHandler(keyName(cl.key), mkHandler(cl.h))
+					var op keyvalue.OpID
+					if cl.h == 0 && (ci+id)%2 == 0 {
+						op = txn.Get(keyName(cl.key)) // the plain call is the handler call with a handler that does nothing
+					} else {
+						op = txn.GetHandler(keyName(cl.key), mkHandler(cl.h))
+					}
 					obs = append(obs, obsT{kind: "id", id: int(op)})
 					issued = append(issued, int(op))
 					e := tRes{id: len(expect), val: -1, err: "RNone"}
@@ -265,7 +270,12 @@ func runC18(r *Rng, n int, replay string) {
 					if cl.val >= 0 {
 						rec = tagRec{cl.val}
 					}
-					op := txn.SetHandler(keyName(cl.key), rec, nil, mkHandler(cl.h))
+					var op keyvalue.OpID
+					if cl.h == 0 && (ci+id)%2 == 0 {
+						op = txn.Set(keyName(cl.key), rec, nil)
+					} else {
+						op = txn.SetHandler(keyName(cl.key), rec, nil, mkHandler(cl.h))
+					}
 					obs = append(obs, obsT{kind: "id", id: int(op)})
 					issued = append(issued, int(op))
 					e := tRes{id: len(expect), val: -1, err: "RNone"}
